@@ -4,3 +4,4 @@ INVARIANT NormIdempotent
 INVARIANT PvlKeepsEverything
 INVARIANT EmitCase
 CHECK_DEADLOCK FALSE
+INVARIANT NonIdempotentOnlyThere
